@@ -123,10 +123,11 @@ def ctype_test(e):
 class Analysis:
     """one run over (part of) a function"""
 
-    def __init__(self, prog, func, summaries=None, hook=None, max_iter=40):
+    def __init__(self, prog, func, summaries=None, hook=None, max_iter=40, edge_hook=None):
         self.prog = prog
         self.f = func
         self.hook = hook          # hook(analysis, block, idx, elem, state) after the transfer of a root element
+        self.edge_hook = edge_hook  # edge_hook(analysis, block, decisive condition, truth, state) on branch edges (ghost facts)
         self.summaries = summaries
         self.events = []          # (kind, block id, idx, expr, detail)
         self.pre = {}             # (bid, idx) -> state before that element
@@ -770,7 +771,10 @@ class Analysis:
         if cv is not None:
             return st if bool(cv) == truth else None
         if _depth == 0 and self.f.T(c.get("t")).get("k") != "float":
-            v0 = self.ev(c, st, True)
+            # the condition was just evaluated as a CFG element: use that value (side effects like n-- are already applied)
+            v0 = st.get(("s", c.get("sid"))) if "sid" in c else None
+            if v0 is None:
+                v0 = self.ev(c, st, True)
             if truth and v0.lo == 0 and v0.hi == 0 and not v0.nan:
                 return None
             if not truth and not v0.contains(0) and not v0.nan:
@@ -1066,6 +1070,12 @@ class Analysis:
                                     break
                     elif nsucc == 2 and cls in ("IfStmt", "WhileStmt", "ForStmt", "DoStmt", "ConditionalOperator", "BinaryOperator", "BinaryConditionalOperator"):
                         out = self.refine(out, cond, si == 0)
+                        if out is not None and self.edge_hook:
+                            # the operand that decides at *this* block: the rightmost one of a logical chain
+                            dc = cond
+                            while isinstance(dc, dict) and strip(dc, all_casts=True).get("k") == "bin" and strip(dc, all_casts=True).get("op") in ("&&", "||"):
+                                dc = strip(dc, all_casts=True)["b"]
+                            self.edge_hook(self, b, dc, si == 0, out)
                 eo = self.edge_out.get((bid, si))
                 self.edge_out[(bid, si)] = out if eo is None else (eo if out is None else self.join_states(eo, out))
                 if out is None:
